@@ -146,11 +146,12 @@ class Persister(object):
              s, _blob(s))]
 
     def check_held(self):
-        for what, obj, blob in self.held:
+        for n, (what, obj, blob) in enumerate(self.held):
             now = _blob(obj)
             if now != blob:
                 self.problems.append({"what": what,
                                       "diff": engine.first_difference(json.loads(blob), json.loads(now))})
+                self.held[n] = (what, obj, now)     # reported once
         out, self.problems = self.problems, []
         return out
 
